@@ -1,5 +1,5 @@
 (* C10 driver: reads cases, one per line:
-     F <op> <op> ...     FlatMap history      ops: at:k idx:k set:k:v ati:i size empty has:k erase:k clear
+     F <op> <op> ...     FlatMap history      ops: at:k idx:k set:k:v ati:i size empty has:k erase:k clear cat:k cati:i (const view)
      P <op> <op> ...     ParameterizedObject  ops: has:n set:n:t:v get:n:t:d rm:n reset add:n
    prints per case one line: per step "out|dump" joined by " ; " *)
 let ios = int_of_string
@@ -20,7 +20,9 @@ let parse_f tok = match String.split_on_char ':' tok with
   | ["set"; k; v] -> FSet (n_of_int (ios k), n_of_int (ios v))
   | ["ati"; i] -> FAtIndex (n_of_int (ios i)) | ["size"] -> FSize | ["empty"] -> FEmpty
   | ["has"; k] -> FContains (n_of_int (ios k)) | ["erase"; k] -> FErase (n_of_int (ios k))
-  | ["clear"] -> FClear | _ -> failwith ("bad op " ^ tok)
+  | ["clear"] -> FClear
+  | ["cat"; k] -> FAtC (n_of_int (ios k)) | ["cati"; i] -> FAtIndexC (n_of_int (ios i))
+  | _ -> failwith ("bad op " ^ tok)
 let parse_p tok = match String.split_on_char ':' tok with
   | ["has"; k] -> PHas (n_of_int (ios k))
   | ["set"; k; t; v] -> PSet (n_of_int (ios k), n_of_int (ios t), n_of_int (ios v))
